@@ -52,6 +52,11 @@ def case_term(cfg: Dict, init: List[Dict], ops: List[Tuple], rng=None, checkpoin
     The state is compared after the last step and at a few random earlier steps (all steps
     would make the literal quadratic in the stream length)."""
     states, err = impl.run_manager(cfg, init, ops)
+    big = max((len(s_) for s_ in states), default=0)
+    if big > 5000:
+        # far beyond anything the generators ask for (fill is bounded to a few hundred buckets): the
+        # model could only confirm the blow-up after minutes of evaluation; report it as it is
+        raise ValueError(f"the manager holds {big} candles for a stream of {len(init) + sum(len(o[1]) for o in ops if o[0] == 'append')}")
     code = None
     if err is not None:
         code = EXN_CODES.get(err, 99)
